@@ -2,7 +2,7 @@
 From Coq Require Import List NArith ZArith Bool.
 From V.Lib Require Import Base Hex.
 From V.Gen Require Import C03Tables.
-From V.C03 Require Import HexLit Codec Model Spec Corr Wf Proofs Bridge Finding.
+From V.C03 Require Import HexLit Codec Sha256 Model Spec Corr Wf Proofs Bridge Finding.
 Import ListNotations.
 Local Open Scope N_scope.
 
@@ -81,25 +81,41 @@ Proof. exact (@vec_count_bounded). Qed.
 Theorem C03_optional_laws : forall A (c : codec A), codec_ok c -> codec_ok (c_flagopt c).
 Proof. exact (@c_flagopt_ok). Qed.
 
-(** bridge: agreement of the model with an accepting observation yields the canonicity,
-    no-overread and amount-range clauses for the implementation on that input *)
-Theorem C03_tx_bridge : forall src b bad n rw s h g,
-  run_case (Tx src b bad (Ok (TxOk n rw s h g))) = true ->
-  n <= nlen b /\
-  prefix_or b n rw = firstn (N.to_nat n) b /\
+(** Bridge: for every transaction / block-header case whose origin label the model confirms
+    ([wf_case]), agreement of all observed quantities with the model's predictions ([run_case]:
+    accept/reject, consumed length, re-serialisation, stored branch id, v1-v4 txid / block hash =
+    SHA-256d of the encoding, re-parse and generated-equality flags, and the same outcome through
+    every alternative reader) implies the property on the implementation's observation. *)
+Theorem C03_bridge : forall c,
+  is_tx_or_hdr c = true -> wf_case c = true -> run_case c = true -> prop_case c = true.
+Proof. exact bridge. Qed.
+
+(** ... and the accepted prefix is the unique encoding of a well-formed model transaction
+    (canonical, bounded length prefixes) whose amounts are all in range. *)
+Theorem C03_tx_bridge_model : forall src ctx b bad n rw txid br s g alts,
+  run_case (Tx src ctx b bad (Ok (TxOk n rw txid br s g)) alts) = true ->
   exists t r, dec (c_tx (table_valid bad)) b = Some (t, r) /\
               firstn (N.to_nat n) b = enc (c_tx (table_valid bad)) t /\
               wf (c_tx (table_valid bad)) t = true /\
               Forall amount_in_range (tx_unsigned_amounts t) /\
               Forall balance_in_range (tx_signed_amounts t).
-Proof. exact tx_bridge. Qed.
-Theorem C03_hdr_bridge : forall src b n rw s h,
-  run_case (Hdr src b (Ok (HdrOk n rw s h))) = true ->
-  n <= nlen b /\ prefix_or b n rw = firstn (N.to_nat n) b /\
-  exists hd r, dec c_header b = Some (hd, r) /\ firstn (N.to_nat n) b = enc c_header hd.
-Proof. exact hdr_bridge. Qed.
-Theorem C03_no_panic_bridge : forall src b bad, run_case (Tx src b bad Panic) = false.
+Proof. exact tx_bridge_model. Qed.
+Theorem C03_no_panic_bridge : forall src ctx b bad alts, run_case (Tx src ctx b bad Panic alts) = false.
 Proof. exact no_panic_bridge. Qed.
+
+(** The consensus branch id of a parsed transaction: the caller's for v1-v4 (not on the wire),
+    the encoded one (bytes 8..12) for v5 / v6, whatever the caller passed. *)
+Theorem C03_branch_context_legacy : forall valid ctx t,
+  wf (c_tx valid) t = true -> is_legacy (fst t) = true -> effective_branch ctx t = ctx.
+Proof. exact legacy_branch. Qed.
+Theorem C03_branch_context_v5 : forall valid ctx t r,
+  wf (c_tx valid) t = true -> is_legacy (fst t) = false ->
+  u32_at 8 (enc (c_tx valid) t ++ r) = effective_branch ctx t.
+Proof. exact encoded_branch. Qed.
+(** the version class of an encoding is readable from its first word *)
+Theorem C03_legacy_header : forall valid t r,
+  wf (c_tx valid) t = true -> legacy_hdr (enc (c_tx valid) t ++ r) = is_legacy (fst t).
+Proof. exact legacy_hdr_enc. Qed.
 
 (** C03-F1 (fixed by /repo commit 8b0ad7b): the reader without the zero-balance check accepted a
     v4 encoding that its own writer did not reproduce; the repaired grammar rejects it. *)
